@@ -77,7 +77,39 @@ def run_checks(patch_text, pids):
     return results
 
 
+def recheck(ids):
+    """re-run all claimed checks against the stored patches and refresh meta.json"""
+    claimed = [c['property_id'] for c in json.load(open(os.path.join(VERIF, 'MANIFEST.json')))['checks']]
+    root = os.path.join(VERIF, 'seeded')
+    rows = []
+    for sid in sorted(os.listdir(root)):
+        if ids and sid not in ids:
+            continue
+        d = os.path.join(root, sid)
+        patch = open(os.path.join(d, 'patch.diff')).read()
+        rc, out = sh('git -C /repo apply --check -', cwd='/repo') if False else (0, '')
+        try:
+            checks = run_checks(patch, claimed)
+        except AssertionError as e:
+            rows.append((sid, 'PATCH DOES NOT APPLY', str(e)[:100]))
+            continue
+        fired = sorted(p for p, r in checks.items() if r['rc'] == 1)
+        errs = sorted(p for p, r in checks.items() if r['rc'] == 2)
+        meta = json.load(open(os.path.join(d, 'meta.json')))
+        meta['checks_run'] = claimed
+        meta['checks_reporting_a_violation'] = fired
+        meta['checks_with_analysis_error'] = errs
+        meta['first_reports'] = {p: checks[p]['lines'][:3] for p in fired + errs}
+        json.dump(meta, open(os.path.join(d, 'meta.json'), 'w'), indent=1)
+        target = meta.get('property') or sid[:3]
+        rows.append((sid, 'target ' + ('CAUGHT' if target in fired else 'missed'), ' '.join(fired) + (' errors: ' + ' '.join(errs) if errs else '')))
+    for r in rows:
+        print(*r, sep='  |  ')
+
+
 def main():
+    if sys.argv[1] == '--recheck':
+        return recheck(set(sys.argv[2:]))
     src, sid = sys.argv[1], sys.argv[2]
     pids = sys.argv[3].split(',') if len(sys.argv) > 3 else None
     meta = json.load(open(os.path.join(src, 'meta.json')))
